@@ -33,7 +33,18 @@ fn m2v<S: BaseFloat>(m: &Matrix2<S>) -> Vec<S> { vec![m.x.x, m.x.y, m.y.x, m.y.y
 fn m3v<S: BaseFloat>(m: &Matrix3<S>) -> Vec<S> { vec![m.x.x, m.x.y, m.x.z, m.y.x, m.y.y, m.y.z, m.z.x, m.z.y, m.z.z] }
 fn m4v<S: BaseFloat>(m: &Matrix4<S>) -> Vec<S> { vec![m.x.x, m.x.y, m.x.z, m.x.w, m.y.x, m.y.y, m.y.z, m.y.w, m.z.x, m.z.y, m.z.z, m.z.w, m.w.x, m.w.y, m.w.z, m.w.w] }
 
-pub fn exec_proj<S: Sc + BaseFloat>(op: &str, fm: &str, a: &[Val<S>]) -> Option<Val<S>> {
+/// every vector / point / matrix / quaternion value multiplied by k (scalars, indices, names unchanged)
+fn scale_val<S: Sc + BaseFloat>(v: &Val<S>, k: S) -> Val<S> {
+    use Val::*;
+    match v {
+        V1(x) => V1(*x * k), V2(x) => V2(*x * k), V3(x) => V3(*x * k), V4(x) => V4(*x * k),
+        P1(x) => P1(*x * k), P2(x) => P2(*x * k), P3(x) => P3(*x * k),
+        M2(x) => M2(*x * k), M3(x) => M3(*x * k), M4(x) => M4(*x * k), Q(x) => Q(*x * k),
+        other => other.clone(),
+    }
+}
+
+pub fn exec_proj<S: Sc + BaseFloat + crate::machine::Exec>(op: &str, fm: &str, a: &[Val<S>]) -> Option<Val<S>> {
     use Val::*;
     let eps = f(S::epsilon());
     Some(match (op, a) {
@@ -427,6 +438,34 @@ pub fn exec_proj<S: Sc + BaseFloat>(op: &str, fm: &str, a: &[Val<S>]) -> Option<
                     for pm in &prods { let pv = m3v(pm); dev = dev.max((f(pv[c * 3 + r]) - qv3[r]).abs() / (eps * bound)); }
                 }
             }
+            Tup(vec![I(ceil_i(dev)), B(true)])
+        }
+        // Homogeneity of ANY operation of the machine: the inner call (name, operand form, exact arguments) is executed
+        // through the ordinary executor twice - on the arguments as given and with every vector / point / matrix / quaternion
+        // argument multiplied by k - and the second result is compared with k^d times the first (d = the degree the model
+        // states for the operation).  <<deviation in eps relative to the largest expected component times the cancellation
+        // factor the recorder observes, both calls of the same kind (value / None / panic)>>
+        ("hom_proj", [T(inner), T(form), I(kc), I(deg), rest @ ..]) => {
+            let k = SCALES[(*kc as usize) % SCALES.len()];
+            let ks: S = NumCast::from(k).unwrap();
+            let scaled: Vec<Val<S>> = rest.iter().map(|v| scale_val(v, ks)).collect();
+            let base = <S as crate::machine::Exec>::exec(inner, form, rest)?;
+            let got = <S as crate::machine::Exec>::exec(inner, form, &scaled)?;
+            fn unwrap_opt<S: Sc>(v: &Val<S>) -> (u8, Option<&Val<S>>) { match v { Val::OSome(b) => (1, Some(&**b)), Val::ONone => (2, None), Val::Panic => (3, None), x => (0, Some(x)) } }
+            let ((kb, vb), (kg, vg)) = (unwrap_opt(&base), unwrap_opt(&got));
+            if kb != kg { return Some(Tup(vec![I(0), B(false)])); }
+            let (vb, vg) = match (vb, vg) { (Some(x), Some(y)) => (x, y), _ => return Some(Tup(vec![I(0), B(true)])) };
+            if let (B(x), B(y)) = (vb, vg) { return Some(Tup(vec![I(0), B(x == y)])); }
+            let (cb, cg) = (crate::exec_misc::comps(vb)?, crate::exec_misc::comps(vg)?);
+            if cb.len() != cg.len() { return Some(Tup(vec![I(0), B(false)])); }
+            let kd = k.powi(*deg as i32);
+            let exp: Vec<f64> = cb.iter().map(|x| f(*x) * kd).collect();
+            let gotv: Vec<f64> = cg.iter().map(|x| f(*x)).collect();
+            // cancellation: the largest argument component to the power of the degree against the largest result component
+            let amax = rest.iter().filter_map(|v| crate::exec_misc::comps(v)).flatten().map(|x| f(x).abs()).fold(0.0f64, f64::max).max(1.0);
+            let scale = maxabs(&exp).max(1.0e-300);
+            let cond = if *deg >= 1 { (amax.powi(*deg as i32) * kd.abs() / scale).max(1.0) } else { 1.0 } * 8.0;
+            let dev = exp.iter().zip(gotv.iter()).map(|(x, y)| (x - y).abs()).fold(0.0f64, f64::max) / (scale * eps * cond);
             Tup(vec![I(ceil_i(dev)), B(true)])
         }
         // C03 close to parallel: cross(u, u + g w) = g cross(u, w) for exact u, w and g = 1e-3 .. 1e-12 built natively;
